@@ -164,10 +164,18 @@ def main():  # noqa: PLR0912, PLR0915
     names = sorted(n for n, c in harness.REGISTRY.items() if prop in c.props and (tier == "thorough" or c.tier == "quick"))
     skipped = sorted(n for n, c in harness.REGISTRY.items() if prop in c.props and tier == "quick" and c.tier != "quick")
     timeout_ms = 10000 if tier == "quick" else 20000
+    try:
+        with open(os.path.join(HERE, "baseline_obligations.json"), encoding="utf-8") as fd:
+            ledger_before = json.load(fd)
+    except (OSError, ValueError):
+        ledger_before = {}
     jobs = []
     for n in names:
         carve_ids = [f["carveout"] for f in findings["findings"] if f["status"] == "open" and n in f.get("contracts", []) and f.get("carveout")]
-        jobs.append((n, carve_ids, timeout_ms))
+        # an open proof attempt (never discharged on the reference tree) gets a small budget: it is not
+        # counted either way, and its replayable counterexamples show up quickly if there are any
+        open_attempt = ledger_before.get(n, {}).get("status") not in (None, "proved")
+        jobs.append((n, carve_ids, 3000 if open_attempt else timeout_ms))
     mon_jobs = [(m, tier, seed) for m in monitors.MONITORS.get(prop, [])]
 
     limit = int(os.environ.get("VERIF_JOB_TIMEOUT", "1500" if tier == "quick" else "14400"))
@@ -186,11 +194,6 @@ def main():  # noqa: PLR0912, PLR0915
             r = {"monitor": j[0], "error": "worker: " + (r.get("__crashed__") or r.get("__worker_error__")), "wall_s": 0.0}
         mon_results.append(r)
 
-    try:
-        with open(os.path.join(HERE, "baseline_obligations.json"), encoding="utf-8") as fd:
-            ledger_before = json.load(fd)
-    except (OSError, ValueError):
-        ledger_before = {}
     if a.rebaseline:
         path = os.path.join(HERE, "baseline_obligations.json")
         try:
